@@ -32,7 +32,14 @@ fn read_capped<R: Read>(r: &mut R, cap: usize, chunk: usize) -> usize {
     loop {
         calls += 1;
         match r.read(&mut buf) {
-            Ok(0) | Err(_) => break,
+            Ok(0) => break,
+            Err(_) => {
+                // callers retry, poll, or use Read::bytes(): reading on after an error must not panic
+                let _ = r.read(&mut buf);
+                let _ = r.read(&mut buf[..1]);
+                let _ = r.read(&mut []);
+                break;
+            }
             Ok(n) => total += n,
         }
         if total >= cap || calls > 4 * cap {
